@@ -43,6 +43,11 @@ def obligations(tier):
             for op, name in enumerate(['add', 'sub', 'mul', 'div', 'mul_ieee', 'div_ieee']):
                 if name.startswith('div'): continue      # two runs of the float divider: no verdict in 300 s even as a same-circuit equivalence; s / z is only decided by the thorough-tier h_scalar
                 obs.append(Ob('%s/scalar_left_%s' % (ft, name), 'cpx', 'h_scalar_promote', defines=d + ['SOPFIX=%d' % (op if op < 4 else op - 2), 'SIEEEFIX=%d' % (op >= 4)] if op >= 2 else d + ['SOPFIX=%d' % op], unwind=60, backend='cadical', timeout=300 if Q else 3600, bound='all operand bit patterns, both multiplier configurations', min_witnesses=0))
+        if Q and t == 'f':
+            # bug hunting only: the float divider identities and the mixed-operand harness are proved in the thorough tier (10 min to 1 h each); a counterexample, when one exists, is found in
+            # minutes (seeds C10-m6, m7: under 3 min), so the quick tier searches for one for 150 s and records "undecided" otherwise - never "held"
+            for nm, hn, dd in (('hunt_struct_div', 'h_struct', ['OPFIX=3', 'IEEEFIX=0']), ('hunt_scalar', 'h_scalar', [])):
+                ob = Ob('%s/%s' % (ft, nm), 'cpx', hn, defines=d + dd, unwind=60, backend='cadical', timeout=150, bound='all operand bit patterns; counterexample search only', min_witnesses=0); ob.hunt = True; obs.append(ob)
         obs.append(Ob('%s/misc' % ft, 'cpx', 'h_misc', defines=d, unwind=60, timeout=300 if Q else 1800, bound='all operand bit patterns'))
         if not Q: obs.append(Ob('%s/scalar' % ft, 'cpx', 'h_scalar', defines=d, unwind=60, backend='cadical', timeout=3600, bound='all operand bit patterns'))
         if t == 'f' or not Q:
